@@ -615,7 +615,7 @@ for _p in ("C05", "C29", "C08"):
     MODULE_OF[_p] = "det"
     HARNESS_PKGS[_p] = PKG
 DET_EXTRA = ("goproto.proto.testeditions.TestRequiredForeign", "goproto.proto.testeditions.TestAllExtensions",
-             "google.protobuf.Value", "google.protobuf.Struct", "google.protobuf.ListValue")
+             "google.protobuf.Value", "google.protobuf.Struct", "google.protobuf.ListValue", "google.protobuf.Any")
 
 
 def det_schema(binary):
